@@ -128,7 +128,7 @@ def run_case(c):
     counters = {'observations': 0, 'json_views': 0, 'client_views': 0, 'lookup_views': 0}
     viol = []
     contexts = [('alone', 'server', 'text'), ('first', 'server', 'json'), ('middle', 'client', 'text'), ('last', 'client', 'json'),
-                ('first', 'client', 'text'), ('last', 'server', 'text'), ('middle', 'server', 'json'), ('alone', 'client', 'json')]
+                ('first', 'client', 'text'), ('last', 'server', 'text'), ('middle', 'server', 'json'), ('alone', 'client', 'json'), ('middle', 'server', 'verbose'), ('last', 'client', 'batch')]
     for pos, role, fmt in contexts:
         lists = {}
         for cat in targets:
@@ -145,7 +145,7 @@ def run_case(c):
         if marker:
             lists['kex'] = lists['kex'] + [MARK_C if role == 'client' else MARK_S]
         script = {'banner': 'SSH-2.0-OpenSSH_9.%d' % rng.randint(0, 9), 'kex': audit.sym_kex(lists['kex'], lists['key'], lists['enc'], lists['mac']), 'hostkeys': {}, 'hostkey_default': None, 'gex': None}
-        args = ['-j'] if fmt == 'json' else ['-n']
+        args = {'json': ['-j'], 'text': ['-n'], 'verbose': ['-n', '-v'], 'batch': ['-n', '-b']}[fmt]
         if role == 'client':
             r, p = audit.audit_client(script, args)
             if p.count('connected') == 0:
@@ -173,7 +173,7 @@ def run_case(c):
                 obs[cat].append((label, canon(notes)))
                 counters['observations'] += 1
         else:
-            rep = report.parse_text(r.out)
+            rep = report.parse_text(r.out, verbose=(fmt == 'verbose'))
             for cat in targets:
                 ent = [a for a in rep.algs[cat] if a.name == targets[cat]]
                 if not ent:
